@@ -175,8 +175,11 @@ func checkC18(c C18Case) h.Outcome {
 	return o
 }
 
-func TestC18(t *testing.T)        { h.RunProp(t, "C18", genC18, checkC18) }
-func TestC18_Replay(t *testing.T) { h.RunReplay(t, "C18", checkC18) }
+func TestC18(t *testing.T) { h.RunProp(t, "C18", genC18, checkC18) }
+func TestC18_Replay(t *testing.T) {
+	h.RunReplay(t, "C18", checkC18)
+	h.RunReplay(t, "C18.signed", checkC18Signed)
+}
 
 // C18Mass — uniqueness and format over long mixed sequences with the real random source,
 // sequentially and from 16 goroutines, across several SP instances.
@@ -274,6 +277,78 @@ func TestC18_GridConfigs(t *testing.T) {
 		cases = append(cases, c)
 	}
 	h.RunCases(t, "C18", cases, checkC18)
+}
+
+// C18Signed: SIGNED builds (real randomness; signing itself consumes random bytes, so no replay differential) on
+// a service provider whose exported, cached signing context was customised by the application the way
+// goxmldsig allows (IdAttribute, Prefix): the message identifier is still the unqualified ID attribute.
+type C18Signed struct {
+	IdAttr string `json:"idAttr"`
+	Prefix string `json:"prefix"`
+	Cfg    int    `json:"cfg"`
+}
+
+func checkC18Signed(c C18Signed) h.Outcome {
+	o := h.Outcome{NonTrivial: true, Classes: []string{"signed", "idAttr:" + c.IdAttr, "prefix:" + c.Prefix}}
+	cfg := h.BaseSP()
+	cfg.Enc = h.KeyCfg{Mode: "tls", Field: h.CertRef{Key: "E1", Window: "wide"}}
+	cfg.SignRequests = true
+	cfg.ForceAuthn, cfg.IsPassive = c.Cfg&1 != 0, c.Cfg&2 != 0
+	sp := cfg.Build()
+	randMu.Lock()
+	defer randMu.Unlock()
+	ctx := sp.SigningContext()
+	if ctx == nil {
+		o.Violation = h.V("no-signing-context", "SigningContext() is nil with a key configured")
+		return o
+	}
+	if c.IdAttr != "" {
+		ctx.IdAttribute = c.IdAttr
+	}
+	if c.Prefix != "" {
+		ctx.Prefix = c.Prefix
+	}
+	seen := map[string]bool{}
+	for round := 0; round < 2; round++ {
+		for kind, build := range []func() (*etree.Document, error){
+			sp.BuildAuthRequestDocument,
+			func() (*etree.Document, error) { return sp.BuildLogoutRequestDocument("n", "s") },
+			func() (*etree.Document, error) { return sp.BuildLogoutResponseDocument("st", "r") },
+		} {
+			doc, err := build()
+			if err != nil {
+				o.Violation = h.V("build-error", "kind %d: %v", kind, err)
+				return o
+			}
+			n := 0
+			for _, a := range doc.Root().Attr {
+				if a.Key == "ID" && a.Space == "" {
+					n++
+				}
+			}
+			id := doc.Root().SelectAttrValue("ID", "")
+			if n != 1 || !idRe.MatchString(id) {
+				o.Violation = h.V("id-format", "signed message kind %d carries %d unqualified ID attributes, value %q (signing context IdAttribute %q)", kind, n, id, c.IdAttr)
+				return o
+			}
+			if seen[id] {
+				o.Violation = h.V("id-repeat", "ID %q repeated", id)
+				return o
+			}
+			seen[id] = true
+		}
+	}
+	return o
+}
+
+func TestC18_GridSigned(t *testing.T) {
+	var cases []C18Signed
+	for i, ia := range []string{"", "Id", "id", "AssertionID", "xml:id", "ID"} {
+		for j, pf := range []string{"", "dsig"} {
+			cases = append(cases, C18Signed{IdAttr: ia, Prefix: pf, Cfg: i + j})
+		}
+	}
+	h.RunCases(t, "C18.signed", cases, checkC18Signed)
 }
 
 func TestC18_GridMass(t *testing.T) {
